@@ -11,6 +11,16 @@
   anything on the implementation side); `viol` (restarts outside their window) is always
   predicted 0.
 
+  header: trk=1 — the probe Controllers use the output tracker: every reconcile starts with
+        StartTrackingOutputs and, when it succeeds, ends with CleanupOutputs (which also resets the restart
+        backoff: `okn` behaves like `ok`); a failure / panic leaves the reconcile between the two. Model mode
+        follows `Cosi.Model.Tracker` (stale tracker ⇒ the restarted run panics before it reconciles: no
+        invocation, the loop backs off again); the specification knows no tracker.
+  outcome `errz` (q, m): the error comes wrapped in a RequeueError with interval 0 — a failure like `error`.
+  outcome `canceled` (an error wrapping context.Canceled while the context is alive): r, h — a clean exit by
+        design (`RunEnd.finished`); q — the reconcile counts as succeeded; t — a FAILURE like any other error
+        (pkg/task has no such exception; model mode asks `Cosi.Model.TaskLoop.genRules`).
+
   ops:  o s=<stream> o=<outcome> dur=<ns> lo=<ns> hi=<ns>   (before `start` only)
         om s=<stream> pat=<e|p|w…> lo=<ns,…> hi=<ns,…>       (before `start` only: a marathon)
         start | write id=a|b|m v=<n> | advance d=<ns> | watcherr | cancel | cancelerr mode=mid|race |
@@ -25,6 +35,8 @@
 -/
 import Cosi.Base
 import Cosi.Model.Restart
+import Cosi.Model.Tracker
+import Cosi.Model.TaskLoop
 import Cosi.Spec.Restart
 
 namespace Cosi.Driver.Restart
@@ -69,6 +81,7 @@ structure Stream where
   wild : Bool := false           -- state unknown
   lost : Bool := false           -- invocation index unknown: tokens are `*`
   mayStop : Bool := false        -- the script contains finish / canceled
+  trkSet : Bool := false         -- model mode, tracking controllers: `adapter.outputTracker != nil` between runs
   out : Option String := none
   toks : List String := []
 deriving Repr, Inhabited
@@ -88,6 +101,7 @@ structure St where
   hung : Bool := false           -- Run never returns (a goroutine is stuck): `leak=1` at the end
   dead : Bool := false
   spec : Bool := false
+  trk : Bool := false            -- the probe Controllers use the output tracker
 deriving Repr, Inhabited
 
 def kindOf (name : String) : SK :=
@@ -120,15 +134,26 @@ def init (spec : Bool) (a : List (String × String)) : St :=
   let names := ((List.range nr).map fun i => s!"r{i+1}") ++
     (if q then ["q1/a", "q1/b", "q1/m"] ++ (if hook then ["q1/h"] else []) else []) ++
     (if task then ["t1"] else [])
-  { streams := names.map (mkStream spec), nr := nr, q := q, spec := spec }
+  { streams := names.map (mkStream spec), nr := nr, q := q, spec := spec, trk := arg a "trk" == "1" }
 
 /-! ### machines -/
 
-def failing (o : String) : Bool := o == "error" || o == "panic" || o == "errw"
+def failing (o : String) : Bool := o == "error" || o == "panic" || o == "errw" || o == "errz"
+
+/-- is this outcome of a stream of kind `k` a failure (followed by a backoff and a restart)? An error
+    that wraps context.Canceled is one for a task: by the property in spec mode, by the regenerated
+    exit rule of task.runWithRestarts in model mode -/
+def failingK (spec : Bool) (k : SK) (o : String) : Bool :=
+  failing o || (k == .t && o == "canceled" && (spec || !TaskLoop.genRules.finishes .canceledErr))
+
+/-- does a successful reconcile WITHOUT an explicit ResetRestartBackoff (`okn`) still reset the restart
+    backoff? Yes for a tracking controller: CleanupOutputs reports the success -/
+def oknResets (spec trk : Bool) : Bool := trk && (spec || Tracker.genRules.cleanupResets)
 
 /-- apply a failure (error or panic after `dur` ns of run time) to a machine; the window of the
     backoff it enters, `none` if the machine does not back off (crash, unknown) -/
-def machFail (k : SK) (m : Mach) (panic : Bool) (dur : Nat) (elo ehi : Nat) : Mach × Option (Nat × Nat) :=
+def machFail (k : SK) (m : Mach) (o : String) (dur : Nat) (elo ehi : Nat) : Mach × Option (Nat × Nat) :=
+  let panic := o == "panic"
   let e : RunEnd := if panic then .panicked else .failed
   match m with
   | .s n =>
@@ -140,7 +165,8 @@ def machFail (k : SK) (m : Mach) (panic : Bool) (dur : Nat) (elo ehi : Nat) : Ma
     (.r l', match l'.phase with | .backingOff lo hi => some (lo, hi) | _ => none)
   | .q bo =>
     if panic && !Gen.Restart.qRecovers then (.q bo, none) else
-    let r := decision bo 0 Outcome.error
+    -- `errz`: the failure comes wrapped in a RequeueError whose interval is 0 (controller.NewRequeueError(err, 0))
+    let r := decision bo 0 (if o == "errz" then Outcome.requeueErr 0 else Outcome.error)
     (.q r.1, match r.2 with | .requeueIn lo hi => some (lo, hi) | .release => none)
   | .b l =>
     let l' := if k == .h then hstep l (.runEnds e dur) else tstep l (.runEnds e dur)
@@ -163,18 +189,19 @@ def machOk (k : SK) (m : Mach) (reset : Bool) : Mach :=
 
 def validOutcomes : SK → List String
   | .r => ["ok", "okn", "error", "panic", "errw", "finish", "canceled"]
-  | .q => ["ok", "error", "panic", "errw"]
-  | _ => ["ok", "error", "panic"]
+  | .q => ["ok", "error", "panic", "errw", "errz", "canceled"]
+  | .m => ["ok", "error", "panic", "errz"]
+  | _ => ["ok", "error", "panic", "canceled"]
 
 /-- a script line: the window written on it must be the one the model assigns to that
     position of the script -/
-def scriptEntry (s : Stream) (o : String) (dur0 lo hi : Nat) : Stream × String :=
+def scriptEntry (spec trk : Bool) (s : Stream) (o : String) (dur0 lo hi : Nat) : Stream × String :=
   let dur := if s.kind == .h || s.kind == .t then dur0 else 0
   if !(validOutcomes s.kind).contains o then (s, "bad-outcome")
   else if s.sdead then (s, "script-unreachable")
   else if s.lost then
-    ({ s with script := s.script ++ [⟨o, dur, lo, hi⟩], mayStop := s.mayStop || o == "finish" || o == "canceled" }, "*")
-  else if failing o then
+    ({ s with script := s.script ++ [⟨o, dur, lo, hi⟩], mayStop := s.mayStop || o == "finish" || (o == "canceled" && s.kind != .q) }, "*")
+  else if failingK spec s.kind o then
     match s.sm with
     | .s n =>
       -- the window of the specification, up to the few ns the code's repeated truncation loses
@@ -186,7 +213,7 @@ def scriptEntry (s : Stream) (o : String) (dur0 lo hi : Nat) : Stream × String 
       else (s, "bounds-differ")
     | sm =>
     let sm0 := match sm with | .r l => Mach.r (rstep l .takeEvent) | m => m
-    let (sm', w) := machFail s.kind sm0 (o == "panic") dur lo hi
+    let (sm', w) := machFail s.kind sm0 o dur lo hi
     -- the regenerated facts do not say how this loop backs off (constructor / MaxElapsedTime not the
     -- recognised ones: the model's window is (0,0), a queue item is simply released): the model has
     -- no prediction for this stream. Its tokens are `*` from here on; the obligation that broke is
@@ -206,31 +233,32 @@ def scriptEntry (s : Stream) (o : String) (dur0 lo hi : Nat) : Stream × String 
     | none => (s, "bounds-differ")
   else if lo != 0 || hi != 0 then (s, "bounds-differ")
   else
-    let stops := o == "finish" || o == "canceled" || s.kind == .h || s.kind == .t
-    let sm' := if o == "okn" && s.kind == .r then s.sm else machOk s.kind s.sm true
-    ({ s with sm := sm', sdead := stops, mayStop := s.mayStop || o == "finish" || o == "canceled",
+    let stops := o == "finish" || (o == "canceled" && s.kind != .q) || s.kind == .h || s.kind == .t
+    let sm' := if o == "okn" && s.kind == .r && !oknResets spec trk then s.sm else machOk s.kind s.sm true
+    ({ s with sm := sm', sdead := stops, mayStop := s.mayStop || o == "finish" || (o == "canceled" && s.kind != .q),
               script := s.script ++ [⟨o, dur, 0, 0⟩] }, "script")
 
-def scriptLine (s : Stream) (a : List (String × String)) : Stream × String :=
-  scriptEntry s (arg a "o") (argNat a "dur") (argNat a "lo") (argNat a "hi")
+def scriptLine (spec trk : Bool) (s : Stream) (a : List (String × String)) : Stream × String :=
+  scriptEntry spec trk s (arg a "o") (argNat a "dur") (argNat a "lo") (argNat a "hi")
 
 def patOutcome : Char → String
   | 'e' => "error"
   | 'p' => "panic"
   | 'w' => "errw"
+  | 'z' => "errz"
   | _ => "?"
 
 /-- a marathon line `om s=<stream> pat=<e|p|w…> lo=<list> hi=<list>`: as many script entries as
     the pattern has letters (error / panic / errw, run time 0), each with its window, taken all
     or nothing: the verdict of the first entry that is not accepted, and then no entry at all -/
-def marathonLine (s : Stream) (a : List (String × String)) : Stream × String :=
+def marathonLine (spec trk : Bool) (s : Stream) (a : List (String × String)) : Stream × String :=
   let pat := (arg a "pat").toList
   let los := (argList a "lo").map fun x => x.toNat?.getD 0
   let his := (argList a "hi").map fun x => x.toNat?.getD 0
   if pat.isEmpty || los.length != pat.length || his.length != pat.length then (s, "bad-marathon") else
   let step (acc : Stream × String) (x : Char × Nat × Nat) : Stream × String :=
     if acc.2 != "script" && acc.2 != "*" then acc else
-    let (s', v) := scriptEntry acc.1 (patOutcome x.1) 0 x.2.1 x.2.2
+    let (s', v) := scriptEntry spec trk acc.1 (patOutcome x.1) 0 x.2.1 x.2.2
     if v == "script" then (s', acc.2) else (s', v)
   let r := (pat.zip (los.zip his)).foldl step (s, "script")
   if r.2 == "script" || r.2 == "*" then r else (s, r.2)
@@ -252,6 +280,17 @@ def obsOf (st : St) (s : Stream) : String :=
     succeeded (a reconcile of In/a is queued at that time). The r-machine has already
     been handed its event. -/
 def invoke (st : St) (s : Stream) (ilo ihi : Nat) (cls : String) : Stream × Bool :=
+  -- model mode, a tracking controller: its reconcile starts with StartTrackingOutputs, which panics on a stale
+  -- tracker before anything is read or written — no invocation is seen, the run ends `panicked`
+  let tracking := s.kind == .r && st.trk && !st.spec
+  match tracking && s.trkSet, s.mach with
+  | true, .r l =>
+    let l' := rstep (rstep l .takeEvent) (.runEnds .panicked)
+    let t' := Tracker.afterEnd Tracker.genRules true .panicked
+    match l'.phase with
+    | .backingOff lo hi => ({ s with mach := .r l', trkSet := t', st := .backoff (ilo + lo) (ihi + hi) }, false)
+    | _ => ({ s with mach := .r l', trkSet := t', st := .stopped }, false)
+  | _, _ =>
   let dflt : Entry := if s.kind == .h || s.kind == .t then ⟨"block", 0, 0, 0⟩ else ⟨"ok", 0, 0, 0⟩
   let e := s.script.head?.getD dflt
   let obs := obsOf st s
@@ -261,19 +300,24 @@ def invoke (st : St) (s : Stream) (ilo ihi : Nat) (cls : String) : Stream × Boo
   -- the controller takes the event
   let s := match s.mach with | .r l => { s with mach := .r (rstep l .takeEvent) } | _ => s
   let s := if (s.kind == .r || s.kind == .q) && (e.o == "ok" || e.o == "okn" || e.o == "errw") then { s with out := some obs } else s
-  if failing e.o then
-    let (m', w) := machFail s.kind s.mach (e.o == "panic") e.dur e.lo e.hi
+  -- the tracker the adapter is left with when this execution of ctrl.Run has ended as `x`
+  let endTrk (x : RunEnd) : Bool := tracking && Tracker.afterEnd Tracker.genRules true x
+  if failingK st.spec s.kind e.o then
+    let (m', w) := machFail s.kind s.mach e.o e.dur e.lo e.hi
+    let s := { s with trkSet := endTrk (if e.o == "panic" then .panicked else .failed) }
     match w with
     | some (lo, hi) => ({ s with mach := m', st := .backoff (ilo + e.dur + lo) (ihi + e.dur + hi) }, false)
     | none => ({ s with mach := m', st := .stopped }, false)
-  else if e.o == "finish" || e.o == "canceled" then
+  else if e.o == "finish" || (e.o == "canceled" && s.kind != .q) then
     let m' := match s.mach with | .r l => Mach.r (rstep l (.runEnds .finished)) | m => m
-    ({ s with mach := m', st := .stopped }, false)
+    ({ s with mach := m', st := .stopped, trkSet := endTrk .finished }, false)
   else if s.kind == .h || s.kind == .t then
     -- ok: the loop ends; block: runs until the context is cancelled
     ({ s with st := .stopped }, false)
   else
-    ({ s with mach := machOk s.kind s.mach (e.o == "ok"), st := .idle }, s.kind == .m)
+    -- the reconcile succeeded; a tracking controller has called CleanupOutputs
+    ({ s with mach := machOk s.kind s.mach (e.o == "ok" || (s.kind == .r && oknResets st.spec st.trk)), st := .idle,
+              trkSet := tracking && !Tracker.genRules.cleanupClears }, s.kind == .m)
 
 /-- an input event reaches an r-stream: WatchTrigger; an idle controller reconciles at once -/
 def wakeR (st : St) (s : Stream) : Stream :=
@@ -446,8 +490,12 @@ def doConverge (st : St) (v : Nat) : St × String :=
   let st := { st with streams := st.streams.map fun (s : Stream) => { s with script := [] } }
   let st := settleNow { st with now := st.now + settleNs }
   -- an undetermined stream that cannot have stopped is idle (or blocked) by now, with a cleared backoff
+  -- (not so a tracking controller under rules that can leave a stale tracker behind: it may be in a crash loop)
+  let trackerSafe : Bool := Tracker.genRules.clearsOn .failed && Tracker.genRules.clearsOn .panicked &&
+    Tracker.genRules.clearsOn .finished && Tracker.genRules.cleanupClears
   let st := { st with streams := st.streams.map fun s =>
-    if s.wild && !s.mayStop && !(if runtimeStream s then st.rtStopped else st.allStopped) then
+    if s.wild && !s.mayStop && !(if runtimeStream s then st.rtStopped else st.allStopped) &&
+        (s.kind != .r || !st.trk || st.spec || trackerSafe) then
       { s with wild := false, mach := freshMach st.spec s.kind,
                st := if s.kind == .h || s.kind == .t then .stopped else .idle,
                out := if s.kind == .r || s.kind == .q then some "?" else s.out }
@@ -470,14 +518,14 @@ def stepLine (st : St) (op : String) (a : List (String × String)) : St × Strin
     | none => (st, "no-stream")
     | some s =>
       if st.started then (st, "script-late") else
-      let (s', out) := scriptLine s a
+      let (s', out) := scriptLine st.spec st.trk s a
       (setS st s', out)
   | "om" =>
     match getS st (arg a "s") with
     | none => (st, "no-stream")
     | some s =>
       if st.started then (st, "script-late") else
-      let (s', out) := marathonLine s a
+      let (s', out) := marathonLine st.spec st.trk s a
       (setS st s', out)
   | "start" =>
     if st.started then (st, "already") else
